@@ -22,6 +22,10 @@ CLAIMED = {
   text="Machine-checked proof of the append rules on the model: success implies dtypes (and digital signal counts) matched, NONE/REGULAR receivers keep their timing with NONE/REGULAR sources, IRREGULAR receivers get exactly the concatenated timestamps of IRREGULAR sources, samples appended in order, properties looked up as receiver-first then earliest source (never overwritten), scale/dtype/start untouched, other pool objects untouched, mode mismatch raises TimingMismatchError, arrays need timestamps exactly for IRREGULAR receivers. The converse (must succeed when the conditions hold, exact warnings) is decided per run by the list-level spec oracle in Coq on append-biased pool histories with shared Timing objects.",
   design="DESIGN.md §7 C10", tech="Coq proof over the pool model + in-Coq pool correspondence",
   note=TB + "hand model tied by correspondence."),
+ "C15": dict(
+  text="Machine-checked proof over the names model (property value, cached parsed list, key-changed invalidation, index reversal): after ANY history of name reads, name writes, direct NI_LineNames set/delete, merges through append, unrelated operations and pickling the cache is either empty or exactly the padded parse of the CURRENT property (induction over histories); hence signals[i].name = the (signal_count-1-i)-th trimmed comma-separated entry, signals[name] returns a signal carrying that name or IndexError, and assigning a name without comma / surrounding whitespace changes that entry only and NI_LineNames becomes the joined list (parse(join l) = l for clean lists, proved on strings as code-point lists). Correspondence: histories through the collection, held signals, unpickled/copied signals and a twin waveform sharing the dictionary, judged statelessly against the property value the implementation holds at each read.",
+  design="DESIGN.md §7 C15", tech="Coq invariant proof by induction over histories + string lemmas; in-Coq correspondence",
+  note=TB + "hand model Model/Names.v tied by correspondence; str.split/strip/join modelled on code points (compared with CPython per run); Unicode whitespace beyond 9-13, 28-32, 133, 160 outside the model."),
  "C02": dict(
   text="Machine-checked proof over all of Z: 20 theorems about the tick functions regenerated on every run from _timedelta.py/_datetime.py/_time_value_tuple.py (to_tuple = floor/mod, ranges, from_ticks/from_tuple accept exactly the in-range values and otherwise raise OverflowError, both round trips, byte layout and round trip of the 16-byte CVI record, arrays, pickle, DateTime delegation). The byte/array/pickle glue is tied to the code by a per-run correspondence evaluated inside Coq; a broken proof or correspondence triggers a failing-input search (harvested literals, 2^k battery) against the property-strength spec.",
   design="DESIGN.md §7 C02", tech="Coq proof over a translator-regenerated model + in-Coq correspondence",
